@@ -2,6 +2,7 @@ import ZapVerif.Model.Derive
 import ZapVerif.Model.Slices
 import ZapVerif.Proofs.Derive
 import ZapVerif.Gen.SliceOwn
+import ZapVerif.Proofs.TransDerive
 /-! # C07 — logger context is exact and isolated across derived loggers
 
 Pure semantics: a derivation path builds a core (`derive`) by the real per-wrapper `With` push-downs and lazy wrappers;
@@ -213,5 +214,408 @@ theorem slice_ownership_as_reviewed : Gen.SliceOwn.rows = reviewedSliceSites := 
 
 /-- no aliasing append anywhere in the sources -/
 theorem no_aliasing_append : (Gen.SliceOwn.rows.filter fun r => r.2.2.1 == "A") = [] := by decide
+
+end ZapVerif.C07
+
+/-! # logger.go's derivations and the cores' `With` methods ARE the source (translator round 4, table `Gen.TransDerive`)
+
+`(*Logger).clone`, `Named`, `With`, `WithOptions`, `WithLazy`; `ioCore.clone/With`, `multiCore.With`, `sampler.With`,
+`hooked.With`, `levelFilterCore.With`, `contextObserver.With`; `lazyWithCore.initOnce/With/Check/Enabled/Write/Sync`,
+translated mechanically, are interpreted with `Core.With` of a sub-core, `Encoder.Clone`, `addFields`, `Option.apply`,
+`Enabled`, `Check` and the errors of `Write` / `Sync` as parameters.  What is proved: a derived logger is a copy of EVERY
+field with exactly the derived one replaced and the receiver is never written (`Logger_*_matches_source`); the name is
+`Cores.named` (the function of `path_name`); every wrapper forwards `With` to what it wraps and re-wraps it with its own
+other parts, a tee to every branch in order (`*_With_matches_source`), which are the clauses of `Cores.pushF`
+(`With_results_are_pushF`, the function of `wrapper_with_structure` / `path_fields`); a lazy core evaluates
+`originalCore.With(fields)` at first use and only once (`lazy_initOnce_matches_source`, `lazy_initOnce_idempotent` — the
+source-level facts behind `lazy_evaluates_at_first_use`, `once_cells_stable`), `Check` on a disabled level forces nothing.
+`contextObserver.With` is translated only in its capped form (`noFieldAppend`); `observer_with_no_alias` is about that form. -/
+set_option linter.unusedSimpArgs false
+namespace ZapVerif.C07
+open ZapVerif ZapVerif.GoMini ZapVerif.TransDerive ZapVerif.Gen.TransDerive
+
+/-- `(*Logger).clone`: a copy of EVERY field (`clone := *log`) -/
+theorem Logger_clone_exec_matches_source (P : Par) (s o : LgSt) (self oself : Val) (ev : List Val) (fuel : Nat) :
+    (exec (X P) (fuel + 1) Logger_clone_body ⟨[], lgEnv s self o oself ev⟩).fin = some ([oself], lgEnv s self s oself ev) := by
+  rw [exec_succ]
+  simp [Logger_clone_body, lgEnv]
+
+theorem Logger_clone_matches_source (P : Par) (s o : LgSt) (self oself : Val) (ev : List Val) (fuel : Nat) :
+    run (X P) (fuel + 1) "Logger_clone" [] (lgEnv s self o oself ev) = .done [oself] (lgEnv s self s oself ev) :=
+  run_of_fin (X P) _ _ Gen.TransDerive.Logger_clone [] _ _ _ rfl rfl (Logger_clone_exec_matches_source P s o self oself ev fuel)
+
+/-- `Named`: the empty name returns the receiver itself; otherwise the clone carries every field of the receiver and
+    the name `Cores.named name s` (the receiver's name, a dot, the new segment — no dot after an empty name) -/
+theorem Logger_Named_matches_source (P : Par) (s o : LgSt) (name seg : Bytes) (self oself : Val) (ev : List Val) (fuel : Nat)
+    (hn : s.name = .bytes name) :
+    run (X P) (fuel + 2) "Logger_Named" [.bytes seg] (lgEnv s self o oself ev) =
+      if seg = [] then .done [self] (lgEnv s self o oself ev)
+      else .done [oself] (lgEnv s self { s with name := .bytes (Cores.named name seg) } oself ev) := by
+  obtain ⟨c0, c1, c2, c3, c4, c5, c6, c7, c8, c9⟩ := s
+  simp only at hn
+  subst hn
+  have hcall : ∀ σ : State, retK σ [.blank] "Logger_clone"
+      (exec (X P) (fuel + 1) Logger_clone_body ⟨[], lgEnv ⟨c0, c1, c2, c3, c4, .bytes name, c6, c7, c8, c9⟩ self o oself ev⟩) = _ :=
+    fun σ => retK_of_fin1 σ _ _ _ _ _ (Logger_clone_exec_matches_source P _ o self oself ev fuel)
+  simp only [lgEnv] at hcall
+  cases seg with
+  | nil =>
+    simp only [if_true]
+    apply run_of_fin (X P) _ _ Gen.TransDerive.Logger_Named [.bytes []] _ _ _ rfl rfl
+    rw [exec_succ]
+    simp [Logger_Named_body, lgEnv]
+  | cons c cs =>
+    simp only [reduceCtorEq, if_false]
+    apply run_of_fin (X P) _ _ Gen.TransDerive.Logger_Named [.bytes (c :: cs)] _ _ _ rfl rfl
+    rw [exec_succ]
+    cases name with
+    | nil => simp [Logger_Named_body, hcall, lgEnv, Cores.named]
+    | cons d ds => simp [Logger_Named_body, hcall, lgEnv, Cores.named, joinB]
+
+
+/-- `With`: no fields — the receiver itself; otherwise the clone with `core.With(fields)` as its core, every other field
+    the receiver's; the receiver is not written -/
+theorem Logger_With_matches_source (P : Par) (s o : LgSt) (fields : List Val) (self oself : Val) (ev : List Val) (fuel : Nat) :
+    run (X P) (fuel + 2) "Logger_With" [.list fields] (lgEnv s self o oself ev) =
+      if fields = [] then .done [self] (lgEnv s self o oself ev)
+      else .done [oself] (lgEnv s self { s with core := P.coreWith s.core (.list fields) } oself ev) := by
+  have hcall : ∀ σ : State, retK σ [.blank] "Logger_clone"
+      (exec (X P) (fuel + 1) Logger_clone_body ⟨[], lgEnv s self o oself ev⟩) = _ :=
+    fun σ => retK_of_fin1 σ _ _ _ _ _ (Logger_clone_exec_matches_source P _ o self oself ev fuel)
+  simp only [lgEnv] at hcall
+  cases fields with
+  | nil =>
+    simp only [if_true]
+    apply run_of_fin (X P) _ _ Gen.TransDerive.Logger_With [.list []] _ _ _ rfl rfl
+    rw [exec_succ]
+    simp [Logger_With_body, lgEnv]
+  | cons f fs =>
+    simp only [reduceCtorEq, if_false]
+    apply run_of_fin (X P) _ _ Gen.TransDerive.Logger_With [.list (f :: fs)] _ _ _ rfl rfl
+    rw [exec_succ]
+    have hp : ¬ ((fs.length : Int) + 1 = 0) := by omega
+    simp [Logger_With_body, hcall, lgEnv, hp]
+
+/-- `WithOptions`: the clone (a copy of every field), then every option applied to the clone IN ORDER; the receiver is
+    not written.  (The primary object of the environment is the clone from the first statement on; `o.…` is the receiver.) -/
+theorem Logger_WithOptions_exec_matches_source (P : Par) (s o : LgSt) (opts : List Val) (self oself : Val) (ev : List Val) (fuel : Nat) :
+    (exec (X P) (fuel + 1) Logger_WithOptions_body ⟨[("p0", .list opts)], lgEnv s self o oself ev⟩).fin =
+      some ([self], lgEnv (opts.foldl (fun st opt => P.applyOpt opt st) o) self o oself ev) := by
+  rw [exec_succ]
+  have hloop : ∀ (ys : List Val) (i : Nat) (st : LgSt) (t : Option Val),
+      ∃ t', rangeRun (execS (X P) (exec (X P) fuel) Logger_WithOptions_loop0.rbody) .blank (.loc "l0") ys i
+          ⟨[("p0", .list opts)] ++ (match t with | some v => [("l0", v)] | none => []), lgEnv st self o oself ev⟩ =
+        .normal ⟨[("p0", .list opts)] ++ (match t' with | some v => [("l0", v)] | none => []),
+          lgEnv (ys.foldl (fun st opt => P.applyOpt opt st) st) self o oself ev⟩ := by
+    intro ys
+    induction ys with
+    | nil => intro i st t; exact ⟨t, by cases t <;> simp [rangeRun]⟩
+    | cons y r ih =>
+      intro i st t
+      obtain ⟨t', h⟩ := ih (i + 1) (P.applyOpt y st) (some y)
+      refine ⟨t', ?_⟩
+      cases t <;>
+        simpa [rangeRun, Logger_WithOptions_loop0, Stmt.rbody, State.assign1, Env.set, lgEnv, LgSt.toList] using h
+  obtain ⟨t', h⟩ := hloop opts 0 o none
+  have hL : Logger_WithOptions_loop0 = .range .blank (.loc "l0") (.loc "p0") Logger_WithOptions_loop0.rbody := rfl
+  have hb : Logger_WithOptions_body = .seq Logger_WithOptions_body.hd (.seq Logger_WithOptions_loop0 (.ret [.fld "self"])) := rfl
+  have h0 : execS (X P) (exec (X P) fuel) Logger_WithOptions_body.hd ⟨[("p0", .list opts)], lgEnv s self o oself ev⟩ =
+      .normal ⟨[("p0", .list opts)], lgEnv o self o oself ev⟩ := by
+    simp [Logger_WithOptions_body, Stmt.hd, lgEnv]
+  rw [hb, execS_seq, h0, Out.andThen_normal, execS_seq, hL, execS_range]
+  simp only [evalE_loc, Env.get, if_true, Res.out_ok]
+  simp only [List.nil_append, List.cons_append] at h
+  rw [h]
+  cases t' <;> simp [lgEnv]
+
+theorem Logger_WithOptions_matches_source (P : Par) (s o : LgSt) (opts : List Val) (self oself : Val) (ev : List Val) (fuel : Nat) :
+    run (X P) (fuel + 1) "Logger_WithOptions" [.list opts] (lgEnv s self o oself ev) =
+      .done [self] (lgEnv (opts.foldl (fun st opt => P.applyOpt opt st) o) self o oself ev) :=
+  run_of_fin (X P) _ _ Gen.TransDerive.Logger_WithOptions [.list opts] _ _ _ rfl rfl
+    (Logger_WithOptions_exec_matches_source P s o opts self oself ev fuel)
+
+
+/-- the source text of the wrapper literal `func(core zapcore.Core) zapcore.Core { return zapcore.NewLazyWith(core, fields) }`,
+    as the translation of `WithLazy` carries it into the closure value (read off the generated term: editing the text
+    does not break the theorem, what the closure captures does) -/
+def lazyText : Val :=
+  match Logger_WithLazy_body.tl with
+  | .ret [.call _ [_, _, _, _, _, _, _, _, _, _, .call _ [.call _ (.lit t :: _)]]] => t
+  | _ => .list []
+
+/-- `WithLazy`: no fields — the receiver itself; otherwise `WithOptions` of ONE option, `WrapCore` of the wrapper closure
+    that captures exactly the fields (nothing is evaluated here: the core is not asked) -/
+theorem Logger_WithLazy_matches_source (P : Par) (s o : LgSt) (fields : List Val) (self oself : Val) (ev : List Val) (fuel : Nat) :
+    run (X P) (fuel + 1) "Logger_WithLazy" [.list fields] (lgEnv s self o oself ev) =
+      .done [if fields = [] then self
+             else .list (P.applyOpt (.list [TransDerive.nm "WrapCore", .list [lazyText, .list fields]]) s).toList]
+        (lgEnv s self o oself ev) := by
+  apply run_of_fin (X P) _ _ Gen.TransDerive.Logger_WithLazy [.list fields] _ _ _ rfl rfl
+  rw [exec_succ]
+  cases fields with
+  | nil => simp [Logger_WithLazy_body, lgEnv]
+  | cons f fs =>
+    have hp : ¬ ((fs.length : Int) + 1 = 0) := by omega
+    simp [Logger_WithLazy_body, lgEnv, hp, lazyText, Stmt.tl]
+
+
+/-! ### the cores' `With` methods: every wrapper forwards `With` to what it wraps and re-wraps it with its OWN other parts -/
+
+/-- `ioCore.clone`: same enabler, a CLONE of the encoder, same sink -/
+theorem ioCore_clone_exec_matches_source (P : Par) (en enc out : Val) (fl0 : Env) (fuel : Nat) :
+    (exec (X P) (fuel + 1) ioCore_clone_body ⟨[], ("en", en) :: ("enc", enc) :: ("out", out) :: fl0⟩).fin =
+      some ([.list [en, P.encClone enc, out]], ("en", en) :: ("enc", enc) :: ("out", out) :: fl0) := by
+  rw [exec_succ]; simp [ioCore_clone_body]
+
+theorem ioCore_clone_matches_source (P : Par) (en enc out : Val) (fl0 : Env) (fuel : Nat) :
+    run (X P) (fuel + 1) "ioCore_clone" [] (("en", en) :: ("enc", enc) :: ("out", out) :: fl0) =
+      .done [.list [en, P.encClone enc, out]] (("en", en) :: ("enc", enc) :: ("out", out) :: fl0) :=
+  run_of_fin (X P) _ _ Gen.TransDerive.ioCore_clone [] _ _ _ rfl rfl (ioCore_clone_exec_matches_source P en enc out fl0 fuel)
+
+/-- `ioCore.With`: the fields are added to the CLONE's encoder; the receiver (its encoder included) is not written -/
+theorem ioCore_With_matches_source (P : Par) (en enc out fields : Val) (fl0 : Env) (fuel : Nat) :
+    run (X P) (fuel + 2) "ioCore_With" [fields] (("en", en) :: ("enc", enc) :: ("out", out) :: fl0) =
+      .done [.list [.list [en, P.addFields (P.encClone enc) fields, out]]] (("en", en) :: ("enc", enc) :: ("out", out) :: fl0) := by
+  have hcall : ∀ σ : State, retK σ [.loc "l0"] "ioCore_clone"
+      (exec (X P) (fuel + 1) ioCore_clone_body ⟨[], ("en", en) :: ("enc", enc) :: ("out", out) :: fl0⟩) = _ :=
+    fun σ => retK_of_fin1 σ _ _ _ _ _ (ioCore_clone_exec_matches_source P en enc out fl0 fuel)
+  apply run_of_fin (X P) _ _ Gen.TransDerive.ioCore_With [fields] _ _ _ rfl rfl
+  rw [exec_succ]
+  simp [ioCore_With_body, hcall]
+
+theorem sampler_With_matches_source (P : Par) (core counts tick first thereafter hook fields : Val) (fl0 : Env) (fuel : Nat) :
+    run (X P) (fuel + 1) "sampler_With" [fields]
+        (("core", core) :: ("counts", counts) :: ("tick", tick) :: ("first", first) :: ("thereafter", thereafter) :: ("hook", hook) :: fl0) =
+      .done [.list [.list [P.coreWith core fields, counts, tick, first, thereafter, hook]]]
+        (("core", core) :: ("counts", counts) :: ("tick", tick) :: ("first", first) :: ("thereafter", thereafter) :: ("hook", hook) :: fl0) := by
+  apply run_of_fin (X P) _ _ Gen.TransDerive.sampler_With [fields] _ _ _ rfl rfl
+  rw [exec_succ]; simp [sampler_With_body]
+
+theorem hooked_With_matches_source (P : Par) (core funcs fields : Val) (fl0 : Env) (fuel : Nat) :
+    run (X P) (fuel + 1) "hooked_With" [fields] (("core", core) :: ("funcs", funcs) :: fl0) =
+      .done [.list [.list [P.coreWith core fields, funcs]]] (("core", core) :: ("funcs", funcs) :: fl0) := by
+  apply run_of_fin (X P) _ _ Gen.TransDerive.hooked_With [fields] _ _ _ rfl rfl
+  rw [exec_succ]; simp [hooked_With_body]
+
+theorem levelFilterCore_With_matches_source (P : Par) (core level fields : Val) (fl0 : Env) (fuel : Nat) :
+    run (X P) (fuel + 1) "levelFilterCore_With" [fields] (("core", core) :: ("level", level) :: fl0) =
+      .done [.list [.list [P.coreWith core fields, level]]] (("core", core) :: ("level", level) :: fl0) := by
+  apply run_of_fin (X P) _ _ Gen.TransDerive.levelFilterCore_With [fields] _ _ _ rfl rfl
+  rw [exec_succ]; simp [levelFilterCore_With_body]
+
+/-- `contextObserver.With`: same enabler, same log store, the receiver's context FOLLOWED BY the new fields — as a
+    value; that the append cannot write into the receiver's backing array is the syntactic side condition of the whitelist
+    entry (`noFieldAppend`: only the capped form `co.context[:len(co.context):len(co.context)]` is translated), and
+    `observer_with_no_alias` is the theorem about that form -/
+theorem contextObserver_With_matches_source (P : Par) (en logs : Val) (ctx fields : List Val) (fl0 : Env) (fuel : Nat) :
+    run (X P) (fuel + 1) "contextObserver_With" [.list fields] (("en", en) :: ("logs", logs) :: ("context", .list ctx) :: fl0) =
+      .done [.list [.list [en, logs, .list (ctx ++ fields)]]] (("en", en) :: ("logs", logs) :: ("context", .list ctx) :: fl0) := by
+  apply run_of_fin (X P) _ _ Gen.TransDerive.contextObserver_With [.list fields] _ _ _ rfl rfl
+  rw [exec_succ]; simp [contextObserver_With_body]
+
+theorem take_succ_set {α : Type} (v : α) : ∀ (l : List α) (i : Nat), i < l.length → (l.set i v).take (i + 1) = l.take i ++ [v]
+  | [], _, h => by simp at h
+  | _ :: _, 0, _ => by simp
+  | a :: l, i + 1, h => by simp [take_succ_set v l i (by simpa using h)]
+
+/-- `multiCore.With`: a fresh slice of the same length holding `With(fields)` of EVERY branch, in order -/
+theorem multiCore_With_matches_source (P : Par) (mc : List Val) (fields : Val) (fl0 : Env) (fuel : Nat) :
+    run (X P) (fuel + 1) "multiCore_With" [fields] (("mc", .list mc) :: fl0) =
+      .done [.list [.list (mc.map fun c => P.coreWith c fields)]] (("mc", .list mc) :: fl0) := by
+  apply run_of_fin (X P) _ _ Gen.TransDerive.multiCore_With [fields] _ _ _ rfl rfl
+  rw [exec_succ]
+  have hloop : ∀ (ys : List Val) (i : Nat) (acc : List Val) (t : Option Val), mc.drop i = ys → acc.length = mc.length →
+      ∃ t', rangeRun (execS (X P) (exec (X P) fuel) multiCore_With_loop0.rbody) (.loc "l1") .blank ys i
+          ⟨[("p0", fields), ("l0", .list acc)] ++ (match t with | some v => [("l1", v)] | none => []), ("mc", .list mc) :: fl0⟩ =
+        .normal ⟨[("p0", fields), ("l0", .list (acc.take i ++ ys.map (fun c => P.coreWith c fields) ++ acc.drop (i + ys.length)))] ++
+          (match t' with | some v => [("l1", v)] | none => []), ("mc", .list mc) :: fl0⟩ := by
+    intro ys
+    induction ys with
+    | nil => intro i acc t _ _; exact ⟨t, by cases t <;> simp [rangeRun]⟩
+    | cons y r ih =>
+      intro i acc t hd hl
+      have hi : i < mc.length := by
+        rcases Nat.lt_or_ge i mc.length with h | h
+        · exact h
+        · rw [List.drop_of_length_le h] at hd; cases hd
+      have hy : mc[i]? = some y := by
+        have := congrArg (fun l => l[0]?) hd; simpa using this
+      have hd' : mc.drop (i + 1) = r := by
+        have := congrArg (List.drop 1) hd; simpa [List.drop_drop, Nat.add_comm] using this
+      obtain ⟨t', h⟩ := ih (i + 1) (acc.set i (P.coreWith y fields)) (some (.int i)) hd' (by simpa using hl)
+      refine ⟨t', ?_⟩
+      have hidx : indexVal (.list mc) (.int (i : Int)) = .ok y := by
+        rw [indexVal_list _ i hi]
+        simp [List.getElem?_eq_getElem hi] at hy
+        simp [hy]
+      have hset := ext_set P acc i (P.coreWith y fields) (by omega)
+      have hfin : (acc.set i (P.coreWith y fields)).take (i + 1) ++ r.map (fun c => P.coreWith c fields) ++
+            (acc.set i (P.coreWith y fields)).drop (i + 1 + r.length) =
+          acc.take i ++ (P.coreWith y fields :: r.map (fun c => P.coreWith c fields)) ++ acc.drop (i + (r.length + 1)) := by
+        have h1 : (acc.set i (P.coreWith y fields)).take (i + 1) = acc.take i ++ [P.coreWith y fields] :=
+          take_succ_set _ acc i (by omega)
+        have h2 : (acc.set i (P.coreWith y fields)).drop (i + 1 + r.length) = acc.drop (i + (r.length + 1)) := by
+          rw [List.drop_set_of_lt (by omega)]; congr 1; omega
+        rw [h1, h2]; simp
+      cases t <;>
+        simpa [rangeRun, multiCore_With_loop0, Stmt.rbody, State.assign1, Env.set, hidx, hset, hfin, List.map_cons] using h
+  obtain ⟨t', h⟩ := hloop mc 0 (List.replicate mc.length (.list [])) none (by simp) (by simp)
+  have hL : multiCore_With_loop0 = .range (.loc "l1") .blank (.fld "mc") multiCore_With_loop0.rbody := rfl
+  have hmk := ext_makeCores P mc.length
+  show (execS (X P) (exec (X P) fuel) multiCore_With_body ⟨[("p0", fields)], ("mc", .list mc) :: fl0⟩).fin = _
+  have hb : multiCore_With_body = .seq multiCore_With_body.hd (.seq multiCore_With_loop0 multiCore_With_body.tl.tl) := rfl
+  have h0 : execS (X P) (exec (X P) fuel) multiCore_With_body.hd ⟨[("p0", fields)], ("mc", .list mc) :: fl0⟩ =
+      .normal ⟨[("p0", fields), ("l0", .list (List.replicate mc.length (.list [])))], ("mc", .list mc) :: fl0⟩ := by
+    simp [multiCore_With_body, Stmt.hd, hmk]
+  rw [hb, execS_seq, h0, Out.andThen_normal, execS_seq, hL, execS_range]
+  simp only [evalE_fld, Env.get, if_true, Res.out_ok]
+  simp only [List.append_nil, List.take_zero, List.nil_append, Nat.zero_add] at h
+  rw [h]
+  cases t' <;> simp [multiCore_With_body, Stmt.tl]
+
+
+/-! ### `lazyWithCore`: evaluated at first use, once -/
+
+/-- the fields of a `lazyWithCore`: the initialised core (nil before), the wrapped core, "the Once has fired", the
+    pending fields, the trace -/
+def lzEnv (core orig : Val) (done : Bool) (fields : Val) (ev : List Val) : Env :=
+  [("core", core), ("orig", orig), ("done", .bool done), ("fields", fields), ("ev", .list ev)]
+
+/-- what `initOnce` leaves in `core` -/
+def lzCore (P : Par) (core orig : Val) (done : Bool) (fields : Val) : Val := if done then core else P.coreWith orig fields
+
+/-- `initOnce`: the first call evaluates `originalCore.With(fields)` into `core`; every later call does nothing -/
+theorem lazy_initOnce_exec_matches_source (P : Par) (core orig fields : Val) (done : Bool) (ev : List Val) (fuel : Nat) :
+    (exec (X P) (fuel + 1) lazyWithCore_initOnce_body ⟨[], lzEnv core orig done fields ev⟩).fin =
+      some ([], lzEnv (lzCore P core orig done fields) orig true fields ev) := by
+  rw [exec_succ]
+  cases done <;> simp [lazyWithCore_initOnce_body, lzEnv, lzCore]
+
+theorem lazy_initOnce_matches_source (P : Par) (core orig fields : Val) (done : Bool) (ev : List Val) (fuel : Nat) :
+    run (X P) (fuel + 1) "lazyWithCore_initOnce" [] (lzEnv core orig done fields ev) =
+      .done [] (lzEnv (lzCore P core orig done fields) orig true fields ev) :=
+  run_of_fin (X P) _ _ Gen.TransDerive.lazyWithCore_initOnce [] _ _ _ rfl rfl (lazy_initOnce_exec_matches_source P core orig fields done ev fuel)
+
+/-- only once: a second `initOnce` changes nothing, whatever `Core.With` would answer now -/
+theorem lazy_initOnce_idempotent (P P' : Par) (core orig fields : Val) (done : Bool) (ev : List Val) (fuel : Nat) :
+    run (X P') (fuel + 1) "lazyWithCore_initOnce" [] (lzEnv (lzCore P core orig done fields) orig true fields ev) =
+      .done [] (lzEnv (lzCore P core orig done fields) orig true fields ev) := by
+  rw [lazy_initOnce_matches_source]; simp [lzCore]
+
+/-- `With`: force, then `With` on the INITIALISED core (so the pending fields precede the new ones, and the result is
+    not lazy) -/
+theorem lazy_With_matches_source (P : Par) (core orig fields more : Val) (done : Bool) (ev : List Val) (fuel : Nat) :
+    run (X P) (fuel + 2) "lazyWithCore_With" [more] (lzEnv core orig done fields ev) =
+      .done [P.coreWith (lzCore P core orig done fields) more] (lzEnv (lzCore P core orig done fields) orig true fields ev) := by
+  have hcall : ∀ σ : State, retK σ [] "lazyWithCore_initOnce"
+      (exec (X P) (fuel + 1) lazyWithCore_initOnce_body ⟨[], lzEnv core orig done fields ev⟩) = _ :=
+    fun σ => retK_of_fin0 σ _ _ _ (lazy_initOnce_exec_matches_source P core orig fields done ev fuel)
+  apply run_of_fin (X P) _ _ Gen.TransDerive.lazyWithCore_With [more] _ _ _ rfl rfl
+  rw [exec_succ]
+  simp [lazyWithCore_With_body, hcall]
+  simp [lzEnv]
+
+/-- `Check`: the level question goes to the ORIGINAL core and a disabled level forces nothing; otherwise force, then
+    `Check` on the initialised core -/
+theorem lazy_Check_matches_source (P : Par) (core orig fields rest ce : Val) (l : Int) (done : Bool) (ev : List Val) (fuel : Nat) :
+    run (X P) (fuel + 2) "lazyWithCore_Check" [.list [.int l, rest], ce] (lzEnv core orig done fields ev) =
+      if P.cen orig l then
+        .done [P.chk (lzCore P core orig done fields) (.list [.int l, rest]) ce] (lzEnv (lzCore P core orig done fields) orig true fields ev)
+      else .done [ce] (lzEnv core orig done fields ev) := by
+  have hcall : ∀ σ : State, retK σ [] "lazyWithCore_initOnce"
+      (exec (X P) (fuel + 1) lazyWithCore_initOnce_body ⟨[], lzEnv core orig done fields ev⟩) = _ :=
+    fun σ => retK_of_fin0 σ _ _ _ (lazy_initOnce_exec_matches_source P core orig fields done ev fuel)
+  cases hc : P.cen orig l
+  · simp only [Bool.false_eq_true, if_false]
+    apply run_of_fin (X P) _ _ Gen.TransDerive.lazyWithCore_Check _ _ _ _ rfl rfl
+    rw [exec_succ]
+    simp [lazyWithCore_Check_body, lzEnv, hc]
+  · simp only [if_true]
+    apply run_of_fin (X P) _ _ Gen.TransDerive.lazyWithCore_Check _ _ _ _ rfl rfl
+    rw [exec_succ]
+    have hc' : P.cen orig l = true := hc
+    simp only [lzEnv] at hcall ⊢
+    simp [lazyWithCore_Check_body, hc', hcall]
+
+theorem lazy_Enabled_matches_source (P : Par) (core orig fields : Val) (l : Int) (done : Bool) (ev : List Val) (fuel : Nat) :
+    run (X P) (fuel + 1) "lazyWithCore_Enabled" [.int l] (lzEnv core orig done fields ev) =
+      .done [.bool (P.cen orig l)] (lzEnv core orig done fields ev) := by
+  apply run_of_fin (X P) _ _ Gen.TransDerive.lazyWithCore_Enabled _ _ _ _ rfl rfl
+  rw [exec_succ]; simp [lazyWithCore_Enabled_body, lzEnv]
+
+/-- `Write` / `Sync`: force, then the call on the initialised core (recorded), its error returned -/
+theorem lazy_Write_matches_source (P : Par) (core orig fields e fs : Val) (done : Bool) (ev : List Val) (fuel : Nat) :
+    run (X P) (fuel + 2) "lazyWithCore_Write" [e, fs] (lzEnv core orig done fields ev) =
+      .done [.list (P.werr (lzCore P core orig done fields) e fs)]
+        (lzEnv (lzCore P core orig done fields) orig true fields
+          (ev ++ [.list [TransDerive.nm "Core.Write", lzCore P core orig done fields, e, fs]])) := by
+  have hcall : ∀ σ : State, retK σ [] "lazyWithCore_initOnce"
+      (exec (X P) (fuel + 1) lazyWithCore_initOnce_body ⟨[], lzEnv core orig done fields ev⟩) = _ :=
+    fun σ => retK_of_fin0 σ _ _ _ (lazy_initOnce_exec_matches_source P core orig fields done ev fuel)
+  apply run_of_fin (X P) _ _ Gen.TransDerive.lazyWithCore_Write _ _ _ _ rfl rfl
+  rw [exec_succ]
+  simp only [lzEnv] at hcall ⊢
+  simp [lazyWithCore_Write_body, hcall, nm_write]
+
+theorem lazy_Sync_matches_source (P : Par) (core orig fields : Val) (done : Bool) (ev : List Val) (fuel : Nat) :
+    run (X P) (fuel + 2) "lazyWithCore_Sync" [] (lzEnv core orig done fields ev) =
+      .done [.list (P.serr (lzCore P core orig done fields))]
+        (lzEnv (lzCore P core orig done fields) orig true fields
+          (ev ++ [.list [TransDerive.nm "Core.Sync", lzCore P core orig done fields]])) := by
+  have hcall : ∀ σ : State, retK σ [] "lazyWithCore_initOnce"
+      (exec (X P) (fuel + 1) lazyWithCore_initOnce_body ⟨[], lzEnv core orig done fields ev⟩) = _ :=
+    fun σ => retK_of_fin0 σ _ _ _ (lazy_initOnce_exec_matches_source P core orig fields done ev fuel)
+  apply run_of_fin (X P) _ _ Gen.TransDerive.lazyWithCore_Sync _ _ _ _ rfl rfl
+  rw [exec_succ]
+  simp only [lzEnv] at hcall ⊢
+  simp [lazyWithCore_Sync_body, hcall, nm_sync]
+
+
+/-! ### the translated `With` methods are the clauses of `Cores.pushF` -/
+
+/-- an encoding of the model's cores as the values the translated methods build and are handed: the records of the
+    wrappers (what the other parts `aux` are does not matter), the branch list of a tee, and for an `ioCore` leaf the
+    encoder as a function of its context -/
+structure WithLink (P : Par) (sn : Cores.Snap) where
+  enc : Cores.Core → GoMini.Val
+  fv : List Cores.FldP → GoMini.Val
+  aux : Nat → GoMini.Val
+  lvOf : Cores.Enab → GoMini.Val
+  encoder : List Cores.Fld → GoMini.Val
+  hooked : ∀ c h, enc (.hooked c h) = .list [.list [enc c, aux h]]
+  incr : ∀ c en, enc (.incr c en) = .list [.list [enc c, lvOf en]]
+  sampler : ∀ c s p, enc (.sampler c s p) = .list [.list [enc c, aux s, aux (s + 1), aux (s + 2), aux (s + 3), .bool p]]
+  tee : ∀ cs, enc (.tee cs) = .list [.list (cs.map enc)]
+  leaf : ∀ id en ctx, enc (.leaf id en true ctx) = .list [.list [lvOf en, encoder ctx, aux id]]
+  /-- `addFields` on a clone of the encoder of a context gives the encoder of the extended context -/
+  add : ∀ ctx fs, P.addFields (P.encClone (encoder ctx)) (fv fs) = encoder (ctx ++ fs.map (·.pick true))
+  /-- the dynamic dispatch: `With` of an encoded sub-core is the encoding of its push-down -/
+  cw : ∀ c fs, P.coreWith (enc c) (fv fs) = enc (Cores.pushF sn c fs)
+
+theorem pushFAll_map (sn : Cores.Snap) (fs : List Cores.FldP) : ∀ cs, Cores.pushFAll sn cs fs = cs.map fun c => Cores.pushF sn c fs
+  | [] => rfl
+  | c :: cs => by simp [Cores.pushFAll, pushFAll_map sn fs cs]
+
+/-- what the translated `hooked.With`, `levelFilterCore.With`, `sampler.With`, `multiCore.With` and `ioCore.With` return on
+    encoded cores IS the encoding of `Cores.pushF` — the function `wrapper_with_structure`, `wrapper_with_commutes` and
+    `path_fields` are stated over -/
+theorem With_results_are_pushF (P : Par) (sn : Cores.Snap) (L : WithLink P sn) (fs : List Cores.FldP) :
+    (∀ c h, GoMini.Val.list [.list [P.coreWith (L.enc c) (L.fv fs), L.aux h]] = L.enc (Cores.pushF sn (.hooked c h) fs)) ∧
+    (∀ c s p, GoMini.Val.list [.list [P.coreWith (L.enc c) (L.fv fs), L.aux s, L.aux (s + 1), L.aux (s + 2), L.aux (s + 3), .bool p]] =
+      L.enc (Cores.pushF sn (.sampler c s p) fs)) ∧
+    (∀ cs, GoMini.Val.list [.list ((cs.map L.enc).map fun c => P.coreWith c (L.fv fs))] = L.enc (Cores.pushF sn (.tee cs) fs)) ∧
+    (∀ c en, GoMini.Val.list [.list [P.coreWith (L.enc c) (L.fv fs), L.lvOf en]] = L.enc (Cores.pushF sn (.incr c en) fs)) ∧
+    (∀ id en ctx, GoMini.Val.list [.list [L.lvOf en, P.addFields (P.encClone (L.encoder ctx)) (L.fv fs), L.aux id]] =
+      L.enc (Cores.pushF sn (.leaf id en true ctx) fs)) := by
+  refine ⟨?_, ?_, ?_, ?_, ?_⟩
+  · intro c h; rw [L.cw]; simp [Cores.pushF, L.hooked]
+  · intro c s p; rw [L.cw]; simp [Cores.pushF, L.sampler]
+  · intro cs
+    simp only [Cores.pushF, L.tee, pushFAll_map, List.map_map]
+    congr 3
+    apply List.map_congr_left
+    intro c _; simp [L.cw]
+  · intro c en; rw [L.cw]; simp [Cores.pushF, L.incr]
+  · intro id en ctx; rw [L.add]; simp [Cores.pushF, L.leaf]
 
 end ZapVerif.C07
